@@ -722,4 +722,86 @@ theorem reduce_count_counterexample : ¬ C04_reduce_count_full := by
   revert this
   decide
 
+/-! ### angle units with a zero point, units that share a spelling -/
+
+/-- **Trig of an angle, affine units.**  For `sin`/`cos`/`tan` of a quantity in *any* angle unit of
+    the table — including those with a zero-point offset (`lat`, `lon`, custom-registry angle units
+    added with `offset=`), whatever the sign of the scale — the kernel receives the SI (radian)
+    magnitude `scale * (x - offset)` (`toBase`, the shared affine rule of C03), given that the
+    table's `rad` has scale 1 and no offset (`radian_is_SI_unit`).  No positivity is needed. -/
+theorem trig_of_angle_affine (ueq : UnitV K → UnitV K → Bool) (pre : Prefixes K) (t : Lut K)
+    (f : String) (hf : ruleOf f = some .withoutUnit) (ht : Generated.C04.trigOperators.contains f = true)
+    (u : UnitV K) (hA : isAngle u = true) (e : Entry K) (hrad : resolve pre t "rad" = some e)
+    (he : e.scale = 1 ∧ e.offset = 0 ∧ e.dim = Dim.dAngle) (n : Nat) :
+    ∃ o, dispatchUnary ueq pre t f "__call__" u n = .ok o ∧ o.unit = none ∧ o.mul = 1 ∧
+      ∀ (G : K → K) x, o.value G x = G (toBase u.scale u.offset x) := by
+  by_cases h0 : u.offset = 0
+  · obtain ⟨o, h1, h2, h3⟩ := trig_of_angle ueq pre t f hf ht u hA h0 e hrad he n
+    have hm : o.mul = 1 := by
+      have hnr : Generated.C04.reducePowerUfuncs.contains f = false := by
+        have : Generated.C04.trigOperators = ["sin", "cos", "tan"] := by decide
+        rw [this] at ht
+        simp at ht
+        rcases ht with rfl | rfl | rfl <;> decide
+      simp only [dispatchUnary, hA, ht, hnr, Bool.and_self, if_true, tableUnit, hrad, Except.map, hf,
+        unaryRule, Bool.false_and, Bool.false_eq_true, if_false] at h1
+      split at h1
+      · contradiction
+      · cases h1; rfl
+    refine ⟨o, h1, h2, hm, ?_⟩
+    intro G x
+    rw [h3 G x]; congr 1
+    simp only [toBase, h0]; grind
+  · have hnr : Generated.C04.reducePowerUfuncs.contains f = false := by
+      have : Generated.C04.trigOperators = ["sin", "cos", "tan"] := by decide
+      rw [this] at ht
+      simp at ht
+      rcases ht with rfl | rfl | rfl <;> decide
+    have hud : u.dim = Dim.dAngle := by simp [isAngle] at hA; exact hA.2
+    obtain ⟨es, eo, ed⟩ := he
+    have hnT : (Dim.dAngle == Dim.dTemperature) = false := by decide
+    have hconv : getConversionFactor pre t u ⟨UExpr.sym "rad", e.scale, e.offset, e.dim, true⟩
+        = .ok (u.scale / e.scale, some (u.scale / e.scale * u.offset - e.offset)) := by
+      simp [getConversionFactor, hud, ed, eo, h0, effOffset, hnT]
+    refine ⟨⟨none, 1, some (u.scale / e.scale, some (u.scale / e.scale * u.offset - e.offset))⟩, ?_, rfl, rfl, ?_⟩
+    · simp only [dispatchUnary, hA, ht, hnr, Bool.and_self, if_true, tableUnit, hrad, hconv, Except.map, hf,
+        unaryRule, Bool.false_and, Bool.false_eq_true, if_false]
+    · intro G x
+      simp only [UOut.value, applyFactor, es, eo, toBase]
+      split
+      · have : x * (u.scale / 1) - (u.scale / 1 * u.offset - 0) = u.scale * (x - u.offset) := by grind
+        rw [this]; grind
+      · rename_i hz
+        have hz' : u.scale / 1 * u.offset - 0 = 0 := by simpa using hz
+        have : x * (u.scale / 1) = u.scale * (x - u.offset) := by grind
+        rw [this]; grind
+
+/-- non-vacuity: a colatitude-like unit (negative scale, zero point 90) over ℚ -/
+example : isAngle (⟨UExpr.sym "lat", (-1 : Rat) / 57, 90, Dim.dAngle, true⟩ : UnitV Rat) = true := by decide
+
+/-- **Units that share a spelling.**  Whether the second operand is rescaled is decided by what the
+    units *are* (scale, offset, dimension — `Unit.__eq__`), never by how they are written: two
+    commensurable units with the very same expression but different scales (the same symbol in two
+    registries, or before and after `UnitRegistry.modify`) get the factor `scale₁ / scale₀`. -/
+theorem same_spelling_different_scale_rescaled (ueq : UnitV K → UnitV K → Bool) (hueq : UeqSound ueq)
+    (pre : Prefixes K) (t : Lut K) (f : String) (r : Rule) (hf : ruleOf f = some r)
+    (hr : r = .preserve ∨ r = .comparison ∨ r = .arctan2)
+    (u0 u1 : UnitV K) (z0 z1 : Bool) (hexpr : u0.expr = u1.expr) (hne : u0.scale ≠ u1.scale)
+    (h0 : u0.offset = 0) (h1 : u1.offset = 0) (hd : u0.dim = u1.dim) :
+    ∃ o, dispatchBinary ueq pre t f ⟨some u0, z0⟩ ⟨some u1, z1⟩ none = .ok o ∧ o.conv = u1.scale / u0.scale := by
+  have he : ueq u0 u1 = false := by
+    cases h : ueq u0 u1 with
+    | false => rfl
+    | true => exact absurd (hueq _ _ h).1 hne
+  have hc : r.converts = true := by rcases hr with rfl | rfl | rfl <;> decide
+  have hpm : r.postMul = false := by rcases hr with rfl | rfl | rfl <;> decide
+  have hp := preserveUnits_zero u0 u1 h1
+  rcases hr with rfl | rfl | rfl
+  · exact ⟨⟨some u0, u1.scale / u0.scale, 1, 1, none⟩, by
+      simp [dispatchBinary, binaryRule, hf, h1, hc, hpm, he, hd, conv_zero_offsets pre t u1 u0 h1 h0 hd.symm, hp], rfl⟩
+  · exact ⟨⟨none, u1.scale / u0.scale, 1, 1, none⟩, by
+      simp [dispatchBinary, binaryRule, hf, hc, hpm, he, hd, conv_zero_offsets pre t u1 u0 h1 h0 hd.symm], rfl⟩
+  · exact ⟨⟨some UnitV.dimensionless, u1.scale / u0.scale, 1, 1, none⟩, by
+      simp [dispatchBinary, binaryRule, hf, hc, hpm, he, hd, conv_zero_offsets pre t u1 u0 h1 h0 hd.symm], rfl⟩
+
 end Unyt.C04
